@@ -28,7 +28,9 @@ const STUB_CLIENT_TCP: &str = "network (simtokio), clock, executor, peer (direct
 
 pub fn get(prop: &str, tier: &str) -> Option<Check> {
     let t = tier == "thorough";
-    let n = |quick: u64, thorough: u64| if t { thorough } else { quick };
+    // thorough budgets are multiplied by VERIF_THOROUGH_SCALE (default 4: 4-10 minutes per property on 16 cores)
+    let scale: u64 = std::env::var("VERIF_THOROUGH_SCALE").ok().and_then(|s| s.parse().ok()).filter(|x| *x >= 1).unwrap_or(4);
+    let n = move |quick: u64, thorough: u64| if t { if thorough <= 64 { thorough } else { thorough * scale } } else { quick };
     Some(match prop {
         "C01" => Check {
             prop: "C01",
